@@ -354,8 +354,19 @@ def r4(ctx):
                         if blk in ve.reachable(tb) and not any(blk in ve.reachable(ob) for ov, ob in t.vals if ob != tb):
                             fam[names.get(v, str(v))] = (sock, clo)
     ok = fam.get("V4", ("",))[0] == "Enr::udp4_socket(enr)" and fam.get("V6", ("",))[0] == "Enr::udp6_socket(enr)"
+    whole = None
+    if not fam:
+        # one comparison of whole socket addresses instead of a closure per family (c01.whole_address_form)
+        import c01
+        whole = c01.whole_address_form(facts, ve)
+        if whole:
+            ok = whole["fam"].get("V4") == ("Enr::udp4_socket(enr)", "V4") and whole["fam"].get("V6") == ("Enr::udp6_socket(enr)", "V6")
     rule.check(ok, "V4 source is compared with udp4_socket, V6 source with udp6_socket", "verify_enr|family",
-               "verify_enr compares %s" % {k: v[0] for k, v in fam.items()}, loc=ve.loc(ve.line))
+               "verify_enr compares %s" % ({k: v[0] for k, v in fam.items()} or (whole or {}).get("fam")), loc=ve.loc(ve.line))
+    if whole:
+        for fam_name in ("V4", "V6"):
+            rule.check(whole["absent_passes"] and whole["present_compared"], "%s: advertised socket == observed socket (absent passes)" % fam_name, "verify_enr|equality|%s" % fam_name,
+                       "verify_enr's %s clause is not an equality between the advertised and the observed socket" % fam_name, loc=ve.loc(ve.line))
     n = 0
     for fam_name, (sock, clo) in fam.items():
         if clo[0] != "agg":
